@@ -305,7 +305,7 @@ def make_unit(iset, cube_name, cube_pred, memarch='PMSA', nregions=1, props=('C1
                     _, s_unpred, s_undef = SS.spec_step(r, st0, instr, 'arm' if iset == 'arm' else 'thumb', oplen)
                     ob = eng.oblige('post.exc', '%s: takes %s only where the architecture specifies an exception' % (tag, ','.join(took)),
                                     lor(lnot(r.match(instr)), s_undef, s_unpred, unpred))
-                    ob.props = [r.family or fam]
+                    ob.props = fams(r, fam)
         if rows and not events:
             dprop = 'C06' if iset == 'arm' else 'C07'
             want = 'arm' if iset == 'arm' else ('t16' if iset == 'thumb16' else 't32')
@@ -347,13 +347,13 @@ def make_unit(iset, cube_name, cube_pred, memarch='PMSA', nregions=1, props=('C1
                         else:
                             named.append((k, lor(skip, values_eq(got, v))))
                     ob = eng.oblige_all('decode.fields', '%s: decoded operands == architectural fields of the encoding' % tag, named)
-                    ob.props = [r.family or fam, dprop]
+                    ob.props = fams(r, fam) + [dprop]
                     import importlib
                     absmod = importlib.import_module('props.c03')
                     K = absmod.klass(r.exec_class)
                     ob = eng.oblige('decode.exec', '%s: runs the execute() of %s verified at function level' % (tag, r.exec_class),
                                     getattr(eo.cls, 'execute', None) is K.execute)
-                    ob.props = [r.family or fam]
+                    ob.props = fams(r, fam)
                     continue
                 if r.op is None:
                     continue            # decode-only row
@@ -378,12 +378,12 @@ def make_unit(iset, cube_name, cube_pred, memarch='PMSA', nregions=1, props=('C1
                 if sym.is_intlike(final['cpsr']):
                     flow.append(('instruction set (CPSR.J,T)', lor(skip, values_eq(ST.iset(final['cpsr']), ST.iset(exp['cpsr'])))))
                 ob = eng.oblige_all('post.pc', '%s: final PC and instruction set == architectural (branch target / interworking / PC + length)' % tag, flow)
-                ob.props = ['C04', r.family or fam, dprop]
+                ob.props = ['C04'] + fams(r, fam) + [dprop]
                 ob = eng.oblige_all('post', '%s: final state == architectural decode+operation (all leaves; frame)' % tag, named)
-                ob.props = [r.family or fam, dprop]
+                ob.props = fams(r, fam) + [dprop]
                 ob = eng.oblige('post.unpred', '%s: not executed normally where the architecture says UNDEFINED / takes an exception' % tag,
                                 lor(lnot(r.match(instr)), lnot(s_undef)))
-                ob.props = [r.family or fam, dprop]
+                ob.props = fams(r, fam) + [dprop]
         # ---- decode totality: a word taken as UNDEFINED (no opcode object built) is not a valid, predictable encoding
         # of any row of the table
         if kname == 'none' and took == ['take_undef_instr_exception'] and 'fetch-abort' not in events:
@@ -510,6 +510,11 @@ def row_unpred_undef(r, instr, base):
 
 def unpred_possible(u):
     return u is True
+
+
+def fams(r, fam):
+    """the functional properties an encoding row belongs to ('C03+C12': RFE is a block load and an exception return)"""
+    return (r.family or fam or 'C09').split('+')
 
 
 def callsite_prop(qn, fam):
